@@ -284,6 +284,23 @@ def replay_solver(chk, c):
     return p.returncode != 0, 'exit %d %s' % (p.returncode, (p.stdout + p.stderr).strip().split('\n')[0][:160])
 
 
+def native_battery_item(item):
+    """one catalogue operation from one non-empty pre-state on the g++/ASan/UBSan build with a ledger, objects built in 0xA5-filled storage"""
+    k0, k1, dA, dB, idx = item
+    pre = c08.prestate_program(k0, k1, dA, dB)
+    ins = catalogue(dA, dB)[idx]
+    ins_n = Ins(ins.op, ins.t, ins.s1, ins.s2, ins.x, ins.y, 0.75 if isinstance(ins.c, Term) else ins.c, ins.ext)
+    prog = pre + [ins_n]
+    try:
+        res = native_replay(prog, nslots=NSLOTS, nbufs=3, tag='c15bat%d' % os.getpid())
+    except Exception as e:
+        return None
+    if not res['report']:
+        return None
+    first = [l for l in res['report'].split('\n') if l.strip()][0][:200]
+    return {'pre': (k0, k1, dA, dB), 'op': ins_n.describe(), 'first': first, 'lines': [i.line() for i in prog], 'report': res['report'][:600]}
+
+
 def main(tier):
     chk = Check(PID, tier)
     chk.candidates = []
@@ -296,7 +313,7 @@ def main(tier):
     chk.cov['domains'] = ['heap/object model: bounds, lifetime, new/delete discipline, ledger; nsw/nuw overflow, shifts, division by zero, unreachable, llvm.assume (asserted) on concrete integers']
     chk.cov['stubs'] = ['operator new/new[]/delete/delete[]: ledger', 'GSL containers: shim (range errors are path errors)', 'iostream formatting: empty stubs', 'thread-local scratch (GSL holders) is not counted as leaked (thread exit is C18)']
     chk.assumptions = ['binary/unary ARITHMETIC expressions and scalar products whose operand is an EMPTY vector (dimension 0) are excluded from the histories: the kernels state size>=1 as a precondition (SQUIDS_COMPILER_ASSUME) and the property quantifies over dimensions 2..6; every other operation is exercised on empty vectors too', 'single logical thread',
-                       'allocation failure is C16; dimensions 2..6']
+                       'allocation failure is C16; dimensions 2..6', 'where the source has undefined behaviour the clang IR may define it: a native g++/ASan/UBSan battery (every catalogue operation from two (thorough: three) non-empty pre-states, dimensions (3,2) (thorough: also (2,3)), objects in 0xA5-filled storage) covers that gap and is reported as not solver-decided']
     Pool(nslots=NSLOTS)
     pool_interp_vs_native(chk, sample_programs() if tier == 'thorough' else sample_programs()[:6], nslots=NSLOTS)
     build.ir_for('c15s.cpp', ('SUNalg.cpp', 'SQuIDS.cpp', 'const.cpp'), ('gsl_shim.c',))
@@ -309,6 +326,36 @@ def main(tier):
         chk.merge_worker(w)
         nh += w.get('nhist', 0)
     chk.cov['histories_run'] = nh
+    # ---- native battery (NOT solver-decided): every catalogue operation from three non-empty pre-states on the g++/ASan/UBSan build; covers
+    # behaviour the source leaves undefined and the clang IR happens to define (see DESIGN.md 9.2)
+    live_st = Pool(nslots=NSLOTS)
+    bat = []
+    for (dA, dB) in (pairs[:1] + [(3, 2)] if tier != 'quick' else [(3, 2)]):
+        for kk in ((('ownA', 'ownB'), ('extA', 'ownB'), ('ownA', 'extB')) if tier != 'quick' else (('ownA', 'ownB'), ('extA', 'ownB'))):
+            st_ = live_st.initial()
+            lv = Live(NSLOTS)
+            okp = True
+            for ins in c08.prestate_program(kk[0], kk[1], dA, dB):
+                rs_ = live_st.step(st_, ins)
+                st_ = rs_[0].state
+                update_live(lv, ins, 0, live_st, st_)
+            for idx, ins in enumerate(catalogue(dA, dB)):
+                if legal(lv, ins, False) and not uses_empty_operand(live_st, st_, ins) and ins.op != OPS['CHURN']:
+                    bat.append((kk[0], kk[1], dA, dB, idx))
+    with MPool(min(16, os.cpu_count() or 1)) as mp:
+        bres = mp.map(native_battery_item, bat, chunksize=4)
+    chk.cov['native_battery_runs'] = len(bat)
+    chk.cov['interp_vs_native']['cases'] += len(bat)
+    nat_seen = set()
+    for r_ in bres:
+        if r_ is None:
+            continue
+        sig = r_['op'].split('  [')[0].split(' t=')[0] + '|' + r_['first'].split(' on address')[0][:60]
+        if sig in nat_seen:
+            continue
+        nat_seen.add(sig)
+        chk.report('native-battery:' + hashlib.sha1(sig.encode()).hexdigest()[:10], 'pre-state %s/%s (dims %d,%d): %s on the g++/ASan/UBSan build with objects in 0xA5-filled storage: %s [found by the native battery, not by the solver]' % (
+            r_['pre'] + (r_['op'], r_['first'])), {'lines': r_['lines'], 'native': r_['report']})
     seen = set()
     for c in chk.candidates:
         sig = c.get('sig', c['key'])
